@@ -3,7 +3,8 @@
   (`progress`, `_left_to_right_update`, `_right_to_left_update`, `sweep_complete`,
   `convergence_check`) and of the index/time part of `MPSBackendImpl.timestep_complete`,
   statement by statement, as the code is NOW (after the `sweep_count = 0` reset on a converged
-  step; `previous_energy` is still *not* reset and *not* updated by a converged sweep).
+  step; `previous_energy` is still *not* reset and *not* updated by a converged sweep — variant
+  `resetPrev = false`; `resetPrev = true` is the proposed repair).
 
   The tensors are abstracted away: the bath stacks are represented by their lengths, the state
   by its declared orthogonality centre, and the energy returned by every call of
@@ -54,6 +55,9 @@ structure Cfg (α : Type) where
   maxSweeps : Nat
   /-- `target_times` -/
   times : List α
+  /-- variant switch: `false` = the code as found (`previous_energy` survives a completed step),
+  `true` = repaired (`previous_energy = None` in the converged branch of `sweep_complete`) -/
+  resetPrev : Bool := false
 
 /-- The fields of `DMRGBackendImpl` the machine reads or writes. -/
 structure St (α : Type) where
@@ -149,7 +153,7 @@ def exhausted (cfg : Cfg α) (s : St α) : Bool := decide (cfg.maxSweeps < s.swe
 /-- `sweep_complete` -/
 def sweepComplete (cfg : Cfg α) (s : St α) : Res α :=
   if convergenceCheck cfg.tol s then
-    let r := timestepComplete cfg { s with curT := s.tgtT, sweepCount := 0 }
+    let r := timestepComplete cfg { s with curT := s.tgtT, sweepCount := 0, prevE := if cfg.resetPrev then none else s.prevE }
     sweepTail ⟨r.st, .sweepDone true :: r.evs, r.halt⟩
   else if exhausted cfg s then
     ⟨s, [.sweepDone false, .raise], some .notConverged⟩
